@@ -40,11 +40,12 @@ def weight(img: darsia.Image, weight: Union[float, int, darsia.Image]) -> darsia
         space_dim = img.space_dim
         assert len(weight.img.shape) == space_dim
 
-        # Reshape if needed.
-        if img.img.shape[:space_dim] != weight.img.shape[:space_dim]:
+        # Reshape if needed - do not modify the provided weight image.
+        weight_array = weight.img
+        if img.img.shape[:space_dim] != weight_array.shape[:space_dim]:
             if img.space_dim == 2:
-                weight.img = cv2.resize(
-                    weight.img,
+                weight_array = cv2.resize(
+                    weight_array,
                     tuple(reversed(img.img.shape[:2])),
                     interpolation=cv2.INTER_LINEAR,
                 )
@@ -52,7 +53,7 @@ def weight(img: darsia.Image, weight: Union[float, int, darsia.Image]) -> darsia
                 raise NotImplementedError
 
         # Rescale
-        weighted_img.img = np.multiply(weighted_img.img, weight.img)
+        weighted_img.img = np.multiply(weighted_img.img, weight_array)
 
     elif isinstance(weight, np.ndarray) and np.allclose(
         weight.shape, weighted_img.shape[weighted_img.space_dim :]
